@@ -258,8 +258,30 @@ func C01Scenarios(tier string) []*h.Scenario {
 		}
 		return s
 	}()
+	// the cloud group can lose fewer nodes than are due for removal (its own minimum is above
+	// min_nodes), and tainted nodes that are not removable are listed before the removable ones
+	tight := mk("c01.tight-room", 1, func(hh *h.Hist, a *sim.ASG, g h.GroupSpec) {
+		n0 := hh.W.AddNode(a, sim.NodeOpt{Age: 21 * Q, TaintAge: dp(3 * Q)}) // busy: not removable before the hard grace period
+		hh.W.AddPod(podOn(g, n0.Name, 200))
+		hh.W.AddNode(a, sim.NodeOpt{Age: 20 * Q, TaintAge: dp(1 * Q)}) // fresh
+		hh.W.AddNode(a, sim.NodeOpt{Age: 19 * Q, TaintAge: dp(3 * Q)})
+		hh.W.AddNode(a, sim.NodeOpt{Age: 18 * Q, TaintAge: dp(3 * Q)})
+		n4 := hh.W.AddNode(a, sim.NodeOpt{Age: 17 * Q})
+		hh.W.AddPod(podOn(g, n4.Name, 500))
+		hh.W.AddNode(a, sim.NodeOpt{Age: 16 * Q})
+		a.Min = a.Desired - 1
+	}, false)
+	tight.Slots = 6
+	gTight := tight.Groups[0]
+	tight.Events = func(hh *h.Hist, slot int) []h.Event {
+		var ev []h.Event
+		for _, n := range groupNodes(hh, gTight, 4) {
+			ev = append(ev, evPodStart(gTight, n.Name, 200), evPodFinish(gTight, n.Name), evAnnotate(n.Name, "keep"), evExtTaint(n.Name, "abc"))
+		}
+		return append(ev, evASGEdit(gTight.ASG.Name, 0, 8), evASGEdit(gTight.ASG.Name, 4, 8), evRestart())
+	}
 	// the thorough tier spends its third deviation on the core worlds; the add-on worlds stay at two
-	for _, s := range []*h.Scenario{overmax, offgrid, two} {
+	for _, s := range []*h.Scenario{overmax, offgrid, two, tight} {
 		s.BoundCap = 2
 	}
 	return []*h.Scenario{
@@ -271,5 +293,6 @@ func C01Scenarios(tier string) []*h.Scenario {
 		overmax,
 		offgrid,
 		two,
+		tight,
 	}
 }
